@@ -37,8 +37,8 @@ theorem c08_bcn_prune_one_at_a_time (g : GenCfg) (hg : GenRegValid g) (s : State
   obtain ⟨m, oa, hm, _, _, hk, _, hshape⟩ := bcn_record_shape s.bcn now wall id key rc o b' k hbi hq.2 h
   have hid : m.id = id := (hbi.reg.idsBelowNext id m hm).1
   subst hid
-  have hnd := nodup_insert s.bcn.recs (m.id, m.last + 1)
-    ({ key := m.last + 1, h0 := rc.h0, subTime := if rc.subTime = 0 then wall else rc.subTime } : Rec) hbi.reg.nodupRecs
+  have hnd := nodup_of_sorted _ (sorted_insertRec s.bcn.recs (m.id, m.last + 1)
+    ({ key := m.last + 1, h0 := rc.h0, subTime := if rc.subTime = 0 then wall else rc.subTime } : Rec) hbi.reg.sortedRecs)
   rcases hshape with ⟨hfull, hpos, rfl⟩ | ⟨hroom, rfl⟩
   · refine ⟨m, _, hm, find_insert_eq _ _ _, ?_, ?_, ?_⟩
     · simp only; omega
@@ -49,7 +49,7 @@ theorem c08_bcn_prune_one_at_a_time (g : GenCfg) (hg : GenRegValid g) (s : State
     · intro hfull; omega
     · intro _ k' hne
       subst hk
-      exact find_insert_ne _ _ _ _ (Ne.symm hne)
+      exact find_insertRec_ne _ _ _ _ (Ne.symm hne)
 
 /-- WRKChain: in every state of every run the retained heights are strictly increasing in store
 order, `NumBlocks` is their number, `LowestHeight` is the smallest retained height (0 when none),
@@ -80,7 +80,8 @@ theorem c08_wrk_prune_one_at_a_time (g : GenCfg) (hg : GenRegValid g) (s : State
   rcases hshape with ⟨hfull, hlow, rfl⟩ | ⟨hroom, rfl⟩
   · exact ⟨m, hm, Or.inl ⟨hfull, (wrkPrune_counters s.wrk m m.id now key rc hwi.reg hwi.cnt hm hgt hlow).2⟩⟩
   · refine ⟨m, hm, Or.inr ⟨by omega, ?_⟩⟩
-    have := keysOf_insert_fresh s.wrk.recs m.id key (wrkRec rc now key) m.id (fresh_above_last s.wrk hwi.reg _ key m hm hgt)
+    have := keysOf_insertRec_fresh s.wrk.recs m.id key (wrkRec rc now key) m.id hwi.reg.sortedRecs
+      (fun k' hk' => by have := (keys_le_last s.wrk hwi.reg _ m hm k' hk').2; omega)
     simp only [if_true] at this
     exact this
 
